@@ -26,11 +26,15 @@ import (
 // not change the semantics of the CUE code.
 type labelSimplifier struct {
 	parent *labelSimplifier
-	scope  map[string]bool
+	// scope holds the string labels of this scope that do not need quoting;
+	// a label is mapped to false once a reference may bind to it.
+	scope map[string]bool
+	// idents holds the names bound by identifier labels of this scope.
+	idents map[string]bool
 }
 
 func (s *labelSimplifier) processDecls(decls []ast.Decl) {
-	sc := labelSimplifier{parent: s, scope: map[string]bool{}}
+	sc := labelSimplifier{parent: s, scope: map[string]bool{}, idents: map[string]bool{}}
 	for _, d := range decls {
 		switch x := d.(type) {
 		case *ast.Field:
@@ -41,6 +45,11 @@ func (s *labelSimplifier) processDecls(decls []ast.Decl) {
 	for _, d := range decls {
 		switch x := d.(type) {
 		case *ast.Field:
+			if isEllipsis(x) {
+				// Will be printed as `...`: its label refers to nothing.
+				continue
+			}
+			sc.markLabelReferences(x.Label)
 			ast.Walk(x.Value, sc.markReferences, nil)
 		default:
 			ast.Walk(x, sc.markReferences, nil)
@@ -52,12 +61,40 @@ func (s *labelSimplifier) processDecls(decls []ast.Decl) {
 		case *ast.Field:
 			if bl, ok := x.Label.(*ast.BasicLit); ok {
 				str, err := strconv.Unquote(bl.Value)
-				if err == nil && sc.scope[str] {
+				if err == nil && sc.scope[str] && !ast.StringLabelNeedsQuoting(str) {
 					x.Label = ast.NewIdent(str)
 				}
 			}
 		}
 	}
+}
+
+// markLabelReferences records the references in a label that is an
+// expression: a dynamic field, an interpolation or a pattern.
+func (s *labelSimplifier) markLabelReferences(l ast.Label) {
+	switch x := l.(type) {
+	case *ast.Ident, *ast.BasicLit:
+	case *ast.Alias:
+		if e, ok := x.Expr.(ast.Label); ok {
+			s.markLabelReferences(e)
+		}
+	default:
+		// Struct literals inside a label expression are left as they are.
+		ast.Walk(l, s.markIdents, nil)
+	}
+}
+
+// markIdents marks every identifier of an expression as a reference
+// without simplifying the expression itself.
+func (s *labelSimplifier) markIdents(n ast.Node) bool {
+	switch x := n.(type) {
+	case *ast.SelectorExpr:
+		ast.Walk(x.X, s.markIdents, nil)
+		return false
+	case *ast.Ident:
+		s.markReferences(x)
+	}
+	return true
 }
 
 func (s *labelSimplifier) markReferences(n ast.Node) bool {
@@ -76,9 +113,13 @@ func (s *labelSimplifier) markReferences(n ast.Node) bool {
 		return false
 
 	case *ast.Ident:
+		// A string label of this name must stay quoted in every scope up to
+		// and including the one in which an identifier binds the reference.
 		for c := s; c != nil; c = c.parent {
 			if _, ok := c.scope[x.Name]; ok {
 				c.scope[x.Name] = false
+			}
+			if c.idents[x.Name] {
 				break
 			}
 		}
@@ -96,9 +137,9 @@ func (s *labelSimplifier) markStrings(n ast.Node) bool {
 		s.scope[str] = true
 
 	case *ast.Ident:
-		s.scope[x.Name] = true
+		s.idents[x.Name] = true
 
-	case *ast.ListLit, *ast.Interpolation:
+	case *ast.ListLit, *ast.Interpolation, *ast.ParenExpr:
 		return false
 	}
 	return true
